@@ -134,6 +134,9 @@ class Ctx:
             "notes": self.notes,
             "known_findings_printed": self.known_printed,
         })
+        if STALLED:
+            cov["driver_stalls"] = [x[:1500] for x in STALLED[:5]]
+            cov["driver_stall_count"] = len(STALLED)
         if extra:
             cov.update(extra)
         # keys whose type the evidence schema fixes
@@ -402,10 +405,29 @@ def go_lines(subcmd, lines, args=(), timeout=600, memlimit="3GiB", race=False):
 
 
 def lean_lines(lines, timeout=900):
-    res, rc, err = run_lines([DRV], lines, timeout=timeout)
-    if len(res) != len(lines):
-        raise RuntimeError(f"lean driver answered {len(res)} of {len(lines)} lines: {err[-500:]}")
-    return res
+    """Answers of the Lean driver, one per line. A line on which the driver does not answer in time (the models are
+    fuel-bounded, but fuel bounds depth, not work) or dies is answered `TIMEOUT x<hex>` / `DECODE-ERROR x<hex>` and the
+    rest of the batch is run by a fresh driver: the callers treat both like UNSUPPORTED (no verdict from the model)."""
+    out = []
+    i = 0
+    budget = min(timeout, max(60, len(lines) // 4))
+    stalls = 0
+    while i < len(lines):
+        res, rc, err = run_lines([DRV], lines[i:], timeout=budget)
+        out += res
+        i += len(res)
+        if i < len(lines):
+            stalls += 1
+            if stalls > 20:
+                raise RuntimeError(f"lean driver keeps failing ({stalls} lines without an answer): {err[-300:]}")
+            kind = "TIMEOUT" if "timeout" in (err or "") or rc == -9 else "DECODE-ERROR"
+            out.append(f"{kind} " + xhex(f"driver gave no answer within {budget}s: {(err or '')[-120:]}"))
+            STALLED.append(lines[i][:4000])
+            i += 1
+    return out
+
+
+STALLED = []
 
 
 def xhex(s):
